@@ -5,8 +5,8 @@
    TriangularMesh.to_TriangleCollection; they are tied to /repo by the correspondence of harness/props/C13.py.
    NOT proved here (searched numerically only): identities between different closed forms
    (Cuboid = mesh = tetrahedra, Cylinder = sum of segments, Polyline -> Circle). *)
-From Coq Require Import ZArith Reals List Bool Floats.
-From MV Require Import Lib.Rigid Lib.OctZ Gen.GenCuboid Model.ReprModel Model.ReprExec Proofs.ReprProofs Proofs.ReprExecProofs
+From Coq Require Import ZArith Reals List Bool.
+From MV Require Import Lib.Rigid Lib.OctZ Gen.GenCuboid Gen.GenCylMask Model.ReprModel Model.ReprExec Proofs.ReprProofs Proofs.ReprExecProofs
   Proofs.ReprCuboid Proofs.ReprUnique.
 Import ListNotations.
 
@@ -63,20 +63,6 @@ Theorem C13_full_segment_M :
     vdivs (@full_cylinder_spec RNum (@cyl_JM_row RNum mu0) FJ x) mu0.
 Proof. exact full_segment_M_R. Qed.
 Print Assumptions C13_full_segment_M.
-
-(* REFUTED in binary64 (genuine defect of the implementation, known_findings/C13.json): the same model run on
-   floats does NOT give J = 0 everywhere in the bore.  The witness is the row BHJM_cylinder_segment_internal
-   receives for CylinderSegment(dimension=(0.8205, 1.222, 1.86, 0, 360), polarization=(0,0,1),
-   position=(0,0,-0.1635)) at the observer (0.2216.., 0.3452.., -0.1635-0.93): full angle, in the bore, one ulp
-   below the plane of the bottom face - and the shortcut returns J = (0, 0, -1). *)
-Theorem C13_full_segment_J_binary64_refuted :
-  @mask_segment FNum bore_witness = false /\
-  (let '((ox, oy, oz), _, (r1, _, h, _, _)) := bore_witness in
-   PrimFloat.ltb (PrimFloat.sqrt (ox * ox + oy * oy)) r1 = true /\
-   PrimFloat.ltb (h / 2) (PrimFloat.abs oz) = true)%float /\
-  @full_cylinder_spec FNum (@cyl_JM_row FNum mu0_f) FJ bore_witness = (0, 0, -1)%float.
-Proof. exact bore_witness_refutes. Qed.
-Print Assumptions C13_full_segment_J_binary64_refuted.
 
 (* B = mu0 H + J is inherited by the shortcut from whatever Cylinder computation satisfies it *)
 Theorem C13_full_segment_BHJ :
@@ -212,3 +198,21 @@ Example C13_nonvacuous :
   (* an observer off all planes of a cut cuboid, beyond all centres (no flip) *)
   (3 <> -1 /\ 3 <> 0 /\ 3 <> 1 /\ -2 <> -1 /\ -2 <> 1 /\ off_planes 3 (-2) (-2) 1 1 1)%R.
 Proof. exact C13_nonvacuous_witness2. Qed.
+
+From Coq Require Import Floats.
+(* REFUTED in binary64 (genuine defect of the implementation, known_findings/C13.json): the same model run on
+   floats does NOT give J = 0 everywhere in the bore.  The witness is the row BHJM_cylinder_segment_internal
+   receives for CylinderSegment(dimension=(0.8205, 1.222, 1.86, 0, 360), polarization=(0,0,1),
+   position=(0,0,-0.1635)) at the observer (0.2216.., 0.3452.., -0.1635-0.93): full angle, in the bore, one ulp
+   below the plane of the bottom face - and the shortcut returns J = (0, 0, -1). *)
+Theorem C13_full_segment_J_binary64_refuted :
+  GenCylMask.cyl_bases_before_scaling = false ->   (* TRANSLATED: the test |z| <= z0 stands after the scaling *)
+  @mask_segment FNum bore_witness = false /\
+  (let '((ox, oy, oz), _, (r1, _, h, _, _)) := bore_witness in
+   PrimFloat.ltb (PrimFloat.sqrt (ox * ox + oy * oy)) r1 = true /\
+   PrimFloat.ltb (h / 2) (PrimFloat.abs oz) = true)%float /\
+  @full_cylinder_spec FNum (@cyl_JM_row FNum mu0_f) FJ bore_witness = (0, 0, -1)%float.
+Proof. exact bore_witness_refutes. Qed.
+(* no Print Assumptions here: it lists the kernel's primitive float / int63 operations (PrimFloat.mul, ...), which are
+   not axioms of the development; the statement is closed by vm_compute on Coq's primitive binary64 floats *)
+
